@@ -2,7 +2,8 @@
     Only statements; proofs are [exact <lemma of ArgH/TableProofs.v>]. *)
 From Coq Require Import List NArith Bool Permutation.
 Import ListNotations.
-Require Import Celma.Common.Res Celma.ArgH.Key Celma.ArgH.Table Celma.ArgH.TableProofs.
+Require Import Celma.Common.Res Celma.ArgH.Key Celma.ArgH.Table Celma.ArgH.TableProofs
+               Celma.ArgH.TableOps Celma.ArgH.TableOpsProofs.
 
 (** What the definition-time test ([==] or [mismatch] of ArgumentKey) means:
     the short key or the long key is already taken - which includes a
@@ -83,6 +84,40 @@ Theorem C05_pinned_findArg_refuted :
   find_arg true t2 (lk s_input) = Ok (Some 1).
 Proof. exact find_arg_pinned_order_dependent. Qed.
 Print Assumptions C05_pinned_findArg_refuted.
+
+(** Definitions and look-ups in any interleaving on one handler (a program may
+    ask for an argument before all arguments are defined): the answer to a
+    look-up is [find_arg] on the table of the definitions accepted before it;
+    earlier look-ups leave no trace in later answers or in the table - so all
+    theorems above hold at every point of such a sequence.  (Added after the
+    seeded change C05-8, a look-up cache that later definitions did not
+    invalidate, was missed.) *)
+Theorem C05_lookup_has_no_memory :
+  forall (A : Type) abbr (t : @table A) pre k post ps t2,
+    run_ops abbr t (pre ++ TProbe k :: post) = Some (ps, t2) ->
+    exists t1, run_ops abbr t (defs_of pre) = Some ([], t1) /\
+               nth_error ps (probes_in pre) = Some (find_arg abbr t1 k) /\
+               run_ops abbr t (defs_of (pre ++ TProbe k :: post)) = Some ([], t2).
+Proof. exact @lookup_has_no_memory. Qed.
+Print Assumptions C05_lookup_has_no_memory.
+
+Theorem C05_staged_exact_key_order_independent :
+  forall (A : Type) abbr (defs : list (key * A)) t pre k post ps t2 ka a,
+    build [] defs = Ok t -> Permutation defs (def_pairs pre) ->
+    Forall (fun o => match o with TDef _ _ tol => tol = false | TProbe _ => True end) pre ->
+    run_ops abbr [] (pre ++ TProbe k :: post) = Some (ps, t2) ->
+    typed_key k -> In (ka, a) defs -> key_eq ka k = true ->
+    nth_error ps (probes_in pre) = Some (Ok (Some a)).
+Proof. exact @staged_exact_key_order_independent. Qed.
+Print Assumptions C05_staged_exact_key_order_independent.
+
+(** Non-vacuity of the staged statements: --input is defined, --inp is looked up
+    (an abbreviation), --inp is defined, --inp is looked up again (its own key). *)
+Example C05_staged_nonvacuous :
+  run_ops true [] [TDef (lk s_input) 1 false; TProbe (lk [105; 110; 112]%N);
+                   TDef (lk [105; 110; 112]%N) 2 false; TProbe (lk [105; 110; 112]%N)]
+  = Some ([Ok (Some 1); Ok (Some 2)], [(lk s_input, 1); (lk [105; 110; 112]%N, 2)]).
+Proof. vm_compute. reflexivity. Qed.
 
 (** Non-vacuity: a table built from three definitions, a permutation of it, an
     exact key that is a prefix of two other long keys. *)
